@@ -6,6 +6,19 @@ coq/gen/GenC20.v) on an exhaustive small-scope stream, random long lines, statem
 families of both target languages and the lines the two real code generators pass to
 wrap_line for sample programs.
 
+Emission sites (site == "emit"): the per-line use of wrap_line by the two generators is driven for
+real -- Fortran CodeGenerator.get_code on entries of module_emitter.code (comment lines with leading
+blanks, statements with `!` inside character literals, long tokens, trailing comments), on module
+texts built through the real emitters (module / subroutine / if / do blocks, multi-line templates)
+and on the texts the Fortran generator returns for sample programs with module preambles, CallCode
+templates, trace output and Raise messages; Python emit_def_begin / _emit / emit_def_end / get_code
+with the emitters at several levels and the class texts the Python generator returns -- and compared
+with coq/model/WrapEmit.v (fortran_emit_line, python_emit).  Oracle E (oracle_emit, module_oracle,
+python_text_oracle) judges the RETURNED TEXT: every physical line that holds more than one token
+and is not a comment line (first non-blank character `!` / `#`) is at most 80 characters long,
+comment lines are unchanged, all but the last physical line of a statement end with the marker,
+the tokens read back are the source line's, and the target language reads the same statement.
+
 Oracles (independent of the model), run on every case:
   A  token level: the output lines are prefix + " ".join(consecutive tokens) + padding + marker,
      all tokens in order, each whole in one line, lines with >= 2 tokens fit the width, all but
@@ -24,6 +37,7 @@ import json
 import os
 import random
 import shlex
+import textwrap
 import warnings
 
 from harness import common
@@ -48,7 +62,17 @@ def facts():
             _facts["err"] = None
         except Exception as ex:  # noqa: BLE001 - fail closed: assume the unrepaired shape
             _facts["f"] = dict(width=80, indentation="    ", python_marker="\\", python_lex="LexShlex",
-                               fortran_marker="&", fortran_lex="LexShlex", fortran_indentation=" ")
+                               fortran_marker="&", fortran_lex="LexShlex", fortran_indentation=" ",
+                               fortran_indent_spaces=1, fortran_comment="!", emitter_indent_amount=4)
+            try:        # the tokenizer is the fact the oracles depend on: keep it when it can still be read
+                ut = tr._parse(common.REPO, "dagrt/codegen/utils.py")
+                has_split = any(isinstance(n, ast.FunctionDef) and n.name == "split_outside_quotes" for n in ut.body)
+                for key, fn, pad, esc in (("python_lex", "python.py", "pad_python", True),
+                                          ("fortran_lex", "fortran.py", "pad_fortran", False)):
+                    _facts["f"][key] = tr._partial(tr._parse(common.REPO, "dagrt/codegen/" + fn), fn, pad,
+                                                   has_split, esc)
+            except Exception:  # noqa: BLE001
+                pass
             _facts["err"] = "%s: %s" % (type(ex).__name__, ex)
     return _facts["f"]
 
@@ -76,7 +100,10 @@ def _wrap(target):
 
 
 def run_impl(case, lex_func=None):
-    """case = dict(target, line, level, width (None = default), indentation (None = the generator's))."""
+    """case = dict(target, line, level, width (None = default), indentation (None = the generator's)),
+    or an emission-site case (site == "emit", see run_emit)."""
+    if case.get("site") == "emit":
+        return run_emit(case)
     kw = {}
     if case.get("width") is not None:
         kw["width"] = case["width"]
@@ -342,7 +369,310 @@ def _show(items):
 
 
 def oracle(case, result):
+    if case.get("site") == "emit":
+        return oracle_emit(case, result)
     return oracle_tokens(case, result) or oracle_target(case, result)
+
+# ------------------------------------------------------------------ emission sites (site == "emit")
+#
+# A case dict(site="emit", target="fortran", line=<one entry of module_emitter.code, leading blanks
+# included>) is run through the real CodeGenerator.get_code; dict(site="emit", target="python", line,
+# clevel, elevel) through the real emit_def_begin / _emit / emit_def_end / get_code of the Python
+# generator with the class emitter at level clevel and the function emitter at level elevel.  The
+# result is the list of physical lines of the RETURNED TEXT that come from that line.
+
+_gens = {}
+
+
+def fortran_generator():
+    import dagrt.codegen.fortran as F
+    if "f" not in _gens:
+        _gens["f"] = F.CodeGenerator("m", user_type_map={})
+    return _gens["f"]
+
+
+def run_femit(line):
+    cg = fortran_generator()
+    em = cg.module_emitter
+    saved = em.code
+    em.code = [line]                      # get_code is a function of module_emitter.code
+    try:
+        text = cg.get_code()
+    except Exception as ex:  # noqa: BLE001 - the class is the observable
+        return ("exc", type(ex).__name__)
+    finally:
+        em.code = saved
+    if not isinstance(text, str):
+        return ("exc", "Unrepresentable")
+    return ("ok", text.split("\n"))
+
+
+def run_pemit(line, clevel, elevel):
+    import dagrt.codegen.python as P
+    if "p" not in _gens:
+        _gens["p"] = P.CodeGenerator(class_name="M")
+    cg = _gens["p"]
+    ce = cg._class_emitter
+    before, saved_level = len(ce.code), ce.level
+    try:
+        ce.level = clevel
+        cg.emit_def_begin("p")
+        cg._emitter.level = elevel
+        cg._emit(line)
+        cg.emit_def_end()
+        text = cg.get_code()
+    except Exception as ex:  # noqa: BLE001
+        return ("exc", type(ex).__name__)
+    finally:
+        ce.level = saved_level
+        new = ce.code[before:]
+        del ce.code[before:]
+    if not isinstance(text, str):
+        return ("exc", "Unrepresentable")
+    got = text.split("\n")[before:]
+    # frame: the def line in front, the empty line of emit_def_end behind
+    if len(got) < 3 or got != new or got[0].strip() != "def phase_p(self):" or got[-1] != "":
+        return ("frame", got)
+    return ("ok", got[1:-1])
+
+
+def run_emit(case):
+    if case["target"] == "fortran":
+        return run_femit(case["line"])
+    return run_pemit(case["line"], case["clevel"], case["elevel"])
+
+
+def ref_lex(target, text):
+    """Tokens by the tokenizer the tree is recognised to use, computed without the implementation."""
+    try:
+        if lexkind(target) == "LexShlex":
+            return shlex.split(text, posix=False)
+        return ref_split(text, esc=(target == "python"))
+    except ValueError:
+        return None
+
+
+def is_comment_line(target, line):
+    return line.lstrip(" ").startswith("!" if target == "fortran" else "#")
+
+
+def oracle_emit(case, result):
+    """Independent oracle for one source line and the physical lines of the returned text that come
+    from it: a Fortran comment line (first non-blank character `!`) is passed through unchanged; every
+    other line: all physical lines but the last end with the continuation marker, the tokens of the
+    physical lines (markers removed) are the line's tokens in order, no literal is split, every physical
+    line that holds more than one token and is not a comment line is at most `width` long (leading
+    blanks counted), the lines keep the source line's indentation, and the target language reads the
+    same statement (ast for Python, free-form continuation rules for Fortran)."""
+    target, line = case["target"], case["line"]
+    width = facts()["width"]
+    m = marker(target)
+    toks = ref_lex(target, line)
+    comment = target == "fortran" and is_comment_line(target, line)
+    if result[0] == "exc":
+        if result[1] == "ValueError" and toks is None and not comment:
+            return None
+        return {"kind": "emit-exception", "exception": result[1],
+                "detail": "the generator raised %s while emitting the line" % result[1]}
+    if result[0] == "frame":
+        return {"kind": "emit-frame", "detail": "emit_def_begin/_emit/emit_def_end did not add "
+                                                "`def` line + wrapped lines + empty line to the class text",
+                "text_lines": result[1][:6]}
+    lines = result[1]
+    if comment:
+        if lines != [line]:
+            return {"kind": "emit-comment", "detail": "a comment line is not passed through unchanged",
+                    "text_lines": lines[:4]}
+        return None
+    if toks is None:
+        return {"kind": "emit-no-exception", "detail": "the tokenizer rejects the line (ValueError) but text was emitted"}
+    if not lines:
+        return {"kind": "emit-structure", "detail": "no physical line"}
+    if target == "fortran":
+        prefix = line[:len(line) - len(line.lstrip(" "))]
+        cont = prefix + default_indentation("fortran")
+    else:
+        prefix = " " * (len(default_indentation("python")) * (case["clevel"] + case["elevel"]))
+        cont = prefix + default_indentation("python")
+    got = []
+    for i, l in enumerate(lines):
+        body = l
+        if i < len(lines) - 1:
+            if not l.endswith(m):
+                return {"kind": "emit-continuation", "detail": "physical line %d does not end with the marker %r" % (i, m),
+                        "physical_line": l}
+            body = l[:-1]
+        t = ref_lex(target, body)
+        if t is None:
+            return {"kind": "emit-literal-split", "detail": "a string literal is split at the end of physical line %d" % i,
+                    "physical_line": l}
+        got += t
+        if len(t) >= 2 and len(l) > width and not is_comment_line(target, l):
+            return {"kind": "emit-width", "detail": "physical line %d of the returned text holds %d tokens and is %d "
+                                                    "characters long (width %d); it is not a comment line"
+                                                    % (i, len(t), len(l), width), "physical_line": l}
+        if target == "python" and t and (not l.startswith(prefix if i == 0 else cont)
+                                         or (i == 0 and l[len(prefix):len(prefix) + 1] == " ")):
+            return {"kind": "emit-indentation", "detail": "physical line %d does not start with %d blanks"
+                                                          % (i, len(prefix if i == 0 else cont)), "physical_line": l}
+        if not t and (toks or len(lines) > 1):
+            return {"kind": "emit-tokens", "detail": "physical line %d holds no token" % i}
+    if got != toks:
+        return {"kind": "emit-tokens", "detail": "the tokens of the physical lines (markers removed) are not the "
+                                                 "line's tokens", "want": toks[:6], "got": got[:6]}
+    want = target_reading(line, target)
+    if want is not None:
+        joined = "".join([l[:-1] for l in lines[:-1]] + lines[-1:])
+        rd = scan(joined, target)
+        if rd != want:
+            return {"kind": "emit-target-read", "detail": "the target language reads a different statement in the "
+                                                          "returned text", "unwrapped_reads": _show(want),
+                    "wrapped_reads": _show(rd) if rd is not None else None}
+        if target == "python":
+            a = py_ast(line.strip())
+            if a is not None:
+                b = py_ast(textwrap.dedent("\n".join(lines)))
+                if a != b:
+                    return {"kind": "emit-python-ast", "detail": "ast.dump(ast.parse(...)) differs" if b is not None
+                            else "the emitted statement does not parse"}
+    if target == "fortran":
+        items = scan(line, target) or []
+        if not any(x[0] == "sym" and x[1] == m for x in items):
+            # also for a statement followed by a trailing comment (then `want` is None)
+            msg = fortran_freeform(lines, m)
+            if msg:
+                return {"kind": "emit-fortran-freeform", "detail": msg, "text_lines": lines[:3]}
+    return None
+
+
+def trailing_comment(line):
+    """Index of the first `!` outside character literals, or None (Fortran quoting: a quote character
+    toggles; a doubled quote toggles twice)."""
+    q = None
+    for i, c in enumerate(line):
+        if q is None:
+            if c == "!":
+                return i
+            if c in QUOTES:
+                q = c
+        elif c == q:
+            q = None
+    return None
+
+
+def classify_emit(case, result, o):
+    """Known finding `trailing-comment`: a Fortran statement followed by a trailing comment is wrapped as
+    one statement, so the continuation marker lands inside the comment.  Matched only if that is what
+    oracle E reports, the line has a statement in front of a `!` outside the literals, an open entry names
+    the class, and the statement alone (comment removed) passes oracle E."""
+    if case["target"] != "fortran" or o["kind"] != "emit-fortran-freeform" or \
+            "comment before the continuation marker" not in o["detail"]:
+        return None
+    i = trailing_comment(case["line"])
+    if i is None or not case["line"][:i].strip():
+        return None
+    entry = known_entries().get("trailing-comment")
+    if entry is None:
+        return None
+    c2 = dict(case, line=case["line"][:i].rstrip(" "))
+    if oracle_emit(c2, run_emit(c2)) is not None:
+        return None
+    return entry
+
+
+def cut_groups(target, code, out):
+    """Cut the physical lines `out` of a returned text into one group per source line, using only the
+    text: a comment line is one physical line; otherwise physical lines are taken while they end with
+    the marker, until the tokens read so far plus the tokens of the current line are the source line's.
+    Returns (groups, error)."""
+    m = marker(target)
+    pos, groups = 0, []
+    for src in code:
+        if pos >= len(out):
+            return groups, "the text ends before source line %r" % src[:60]
+        if target == "fortran" and is_comment_line(target, src):
+            groups.append(out[pos:pos + 1])
+            pos += 1
+            continue
+        want = ref_lex(target, src)
+        g, acc = [], []
+        while pos < len(out):
+            l = out[pos]
+            pos += 1
+            g.append(l)
+            whole = ref_lex(target, l)
+            if want is None or (whole is not None and acc + whole == want) or not l.endswith(m):
+                break
+            acc += ref_lex(target, l[:-1]) or []
+            if len(acc) > len(want):
+                break
+        groups.append(g)
+    if pos != len(out):
+        return groups, "%d surplus physical lines" % (len(out) - pos)
+    return groups, None
+
+
+def module_oracle(target, code, text, mk):
+    """Oracle on a whole returned text.  `mk(src)` makes the per-line case.  Returns a list of
+    (case, impl result, oracle result)."""
+    out = text.split("\n")
+    groups, err = cut_groups(target, code, out)
+    bad = []
+    for src, g in zip(code, groups):
+        c = mk(src)
+        o = oracle_emit(c, ("ok", g))
+        if o is None:
+            r = run_emit(c)
+            if r != ("ok", g):
+                o = {"kind": "emit-module", "detail": "the physical lines of this source line in the module text differ "
+                                                      "from the ones the generator returns for the line alone",
+                     "in_module": g[:4]}
+        if o is not None:
+            bad.append((c, ("ok", g), o))
+    if err and not bad:
+        c = mk(code[min(len(groups), len(code) - 1)])
+        bad.append((c, ("ok", []), {"kind": "emit-module", "detail": err}))
+    return bad
+
+
+def python_text_oracle(text, calls):
+    """Oracle on the class text returned by the Python generator.  calls: name of the phase function ->
+    list of lines passed to _emit.  Inside every `def phase_*` block the tokens passed to _emit appear in
+    order on physical lines of their own (lines the generator writes without _emit -- `for` headers of
+    looped assignments, `del` -- lie between them and are not judged), no literal is split, and every
+    such physical line with more than one token that is not a comment fits the width."""
+    out = text.split("\n")
+    width, m = facts()["width"], marker("python")
+    problems = []
+    i = 0
+    while i < len(out):
+        l = out[i]
+        name = l.strip()[4:].split("(")[0] if l.startswith("    def phase_") else None
+        i += 1
+        if name is None or name not in calls:
+            continue
+        want = []
+        for src in calls[name]:
+            want += ref_lex("python", src) or []
+        j = 0
+        while i < len(out) and (out[i] == "" or out[i].startswith("        ")):
+            p = out[i]
+            i += 1
+            body = p[:-1] if p.endswith(m) else p
+            t = ref_lex("python", body)
+            if t is None:
+                problems.append({"kind": "emit-literal-split", "physical_line": p, "function": name})
+                continue
+            if not t or want[j:j + len(t)] != t:
+                continue
+            j += len(t)
+            if len(t) >= 2 and len(p) > width and not is_comment_line("python", p):
+                problems.append({"kind": "emit-width", "physical_line": p, "function": name,
+                                 "detail": "%d tokens, %d characters" % (len(t), len(p))})
+        if j != len(want):
+            problems.append({"kind": "emit-tokens", "function": name, "physical_line": " ".join(want[j:j + 3]),
+                             "detail": "tokens passed to _emit are missing from the function's text (from token %d)" % j})
+    return problems
 
 
 # ------------------------------------------------------------------ known-finding classes
@@ -391,6 +721,8 @@ def classify(case, result, o):
     shows one of the listed quote patterns, an open entry names that pattern, and the very same
     call with a quote-aware tokenizer passes both oracles (so nothing but the tokenizer choice is
     at fault)."""
+    if case.get("site") == "emit":
+        return classify_emit(case, result, o)
     if o["kind"] not in ("target-read", "python-ast", "fortran-freeform", "target-exception"):
         return None
     if lexkind(case["target"]) != "LexShlex":
@@ -416,7 +748,8 @@ ALPHABET = ["ab", "+", "'a b'", '"c  d"', "''", "abcdefghijkl"]
 POOL = ["x", "y1", "=", "+", "*", "//", "==", "(", ")", "f(x,", "g(a)", "self.t", "dagrt_state%y",
         "'a b'", '"c d"', "'a  b c'", "''", '""', "'q'", "f('a", "b')", "g(\"u", "v\")", "x='a", "'it''s'",
         "'it\\'s'", "\"a\\\"", "a'b", "c'd", "averyveryverylongidentifier_0123456789", "'&'", "'\\'",
-        "write(*,*)", "'phase primary count:',", "yield", "component_id='y',", "'x y'z", "'! #'"]
+        "write(*,*)", "'phase primary count:',", "yield", "component_id='y',", "'x y'z", "'! #'",
+        "'a\\\\'", "\"\\\\\""]
 
 PY_TEMPLATES = [
     "{v} = {f}({a}, {s}) + {g}[{s2}] * {a}",
@@ -443,7 +776,8 @@ F_TEMPLATES = [
 NAMES = ["x", "self.global_state_y", "dagrt_state%dagrt_phase_primary_count", "tmp_0", "y"]
 FUNCS = ["f", "self._functions.func_rhs", "g", "numpy.linalg.norm"]
 TEXTS = ["y", "final", "a b", "a  b", "the component with a long name", "", "it's", 'say "hi"', "a\\b",
-         "it's \"too  small", "x &", "primary phase", "  lead", "trail  ", "a\tb", "! no comment", "# no comment"]
+         "it's \"too  small", "x &", "primary phase", "  lead", "trail  ", "a\tb", "! no comment", "# no comment",
+         "step rejected! halving the step size", "D:\\runs\\"]
 
 
 def py_lit(rng, text):
@@ -487,12 +821,18 @@ def corpus():
 
 
 def norm_case(c):
+    if c.get("site") == "emit":
+        if c["target"] == "fortran":
+            return dict(site="emit", target="fortran", line=c["line"])
+        return dict(site="emit", target="python", line=c["line"], clevel=int(c.get("clevel", 1)),
+                    elevel=int(c.get("elevel", 1)))
     return dict(target=c["target"], line=c["line"], level=int(c.get("level", 0)),
                 width=c.get("width"), indentation=c.get("indentation"))
 
 
 def gen_cases(tier, seed):
     rng = random.Random(seed * 7919 + 20)
+    _generator_runs.clear()
     cases = list(corpus())
     dist = {"corpus": len(cases)}
     # exhaustive small scope
@@ -546,7 +886,191 @@ def gen_cases(tier, seed):
     dist["generator_lines"] = len(cases) - n0
     if gen_errors:
         dist["generator_errors"] = gen_errors
+    # emission sites
+    ecases, edist, efail = gen_emit_cases(tier, rng, _generator_runs)
+    known = {(c.get("site"), c["target"], c["line"], c.get("clevel"), c.get("elevel")) for c in cases}
+    for c in ecases:
+        if (c["site"], c["target"], c["line"], c.get("clevel"), c.get("elevel")) not in known:
+            cases.append(c)
+    dist.update(edist)
+    _text_failures[:] = efail
     return cases, dist
+
+
+_generator_runs = {}      # filled by generator_lines_*: texts returned by the real generators
+_text_failures = []       # failures found by the oracles that look at whole returned texts
+
+# ------------------------------------------------------------------ emission-site cases
+
+BANG_TEXTS = ["step rejected! halving the step size", "step size underflow! giving up after too many rejections",
+              "! no comment", "done!", "a 'quoted' word!", "wait & see!"]
+COMMENT_WORDS = ["{{{", "}}}", "instrumentation", "initialize", "scalar", "outputs", "to", "NaN", "it's", "&", "!",
+                 "'open", "x = f(a) + 'b c'", "vim:foldmethod=marker:filetype=fortran", "<state>y", "a  b"]
+F_DECLS = [
+    "character (len=*), parameter :: {v} = {s}, {v}2 = {s2}",
+    "write(*,*) {s}, {a}, {s2}",
+    "write (dagrt_stderr,*) {s}",
+    "if ({a} > 0) write(*,*) {s}, {s2}, {a}",
+    "call {f}({a}, {s}, {a}, {s2}, {a}, {a}, {a})",
+    "{v} = {s} // {s2} // {s} // {s2}",
+]
+F_PREAMBLES = [
+    """
+    ! messages used by the user-supplied right-hand sides
+    character (len=*), parameter :: msg_reject = 'step rejected! halving the step size', msg_giveup = 'step size underflow! giving up after too many rejections'
+    character (len=*), parameter :: msg_accept = 'step accepted, doubling the step size', msg_done = 'final time reached, writing the restart files'
+        ! an indented comment line that is much longer than the width of eighty columns, and must not be wrapped at all & never
+    integer, parameter :: n_messages = 4
+    """,
+    """
+    use iso_c_binding
+    real (kind=8), parameter :: tolerances(6) = (/ 1.0d-3, 1.0d-4, 1.0d-5, 1.0d-6, 1.0d-7, 1.0d-8 /), safety = 0.9d0
+    character (len=*), parameter :: banner = "dagrt says: it's done!", sep = '----------------------------------------'
+    """,
+]
+F_TEMPLATE_EXTRA = [
+    "write(*,*) 'rhs evaluated! component y of the state, a rather long message that has to be wrapped', ${y}(1)",
+    "! user template comment with a 'quote and some more words to make the comment longer than eighty columns",
+    "if (${y}(1) > 1.0d10) write(*,*) 'blow-up!', ${y}(1), ${y}(2), ${y}(3), ${y}(4), ${y}(5), ${y}(6), ${y}(7)",
+]
+
+
+def fortran_line(rng):
+    """One entry of module_emitter.code."""
+    lead = " " * rng.choice([0, 0, 1, 2, 3, 4, 4, 5, 7, 8, 8, 12, 16, 20, 24, 33])
+    k = rng.random()
+    if k < 0.18:                  # comment line (leading blanks, any length, quotes, marker at the end)
+        n = rng.choice([0, 1, 3, 8, 14, 25])
+        body = "!" + rng.choice(["", " ", "  "]) + " ".join(rng.choice(COMMENT_WORDS + NAMES) for _ in range(n))
+        return lead + body
+    if k < 0.55:                  # statement with `!` (and other texts) inside character literals
+        tpl = rng.choice(F_DECLS + F_TEMPLATES)
+        texts = BANG_TEXTS if rng.random() < 0.7 else [t for t in TEXTS if "\t" not in t]
+        return lead + tpl.format(v=rng.choice(NAMES), a=rng.choice(NAMES), f=rng.choice(FUNCS), g=rng.choice(FUNCS),
+                                 s=f_lit(rng, rng.choice(texts)), s2=f_lit(rng, rng.choice(texts)))
+    if k < 0.70:
+        return lead + statement(rng, "fortran")
+    if k < 0.78:                  # long tokens
+        t = "x" * rng.choice([30, 75, 79, 80, 81, 120])
+        return lead + " ".join(rng.choice([t, "=", "'" + t + "!'", "y", t[:40]]) for _ in range(rng.randint(1, 4)))
+    if k < 0.84:                  # statement with a trailing comment (short: never wrapped by today's generator)
+        return lead + rng.choice(["999 continue ! exit label", "stop ! done", "x = 1 ! it is one",
+                                  "integer :: n_steps_between_outputs ! the number of steps between two outputs, "
+                                  "a trailing comment that is long",
+                                  statement(rng, "fortran") + " ! " + " ".join(rng.choice(NAMES) for _ in range(6))])
+    return lead + random_line(rng)
+
+
+def fortran_line_ok(rng):
+    """fortran_line that the generator can emit (all literals terminated)."""
+    while True:
+        l = fortran_line(rng).lstrip(" ")
+        if "\t" not in l and (is_comment_line("fortran", l) or ref_lex("fortran", l) is not None):
+            return l
+
+
+def scripted_fortran_module(rng, k):
+    """Feed lines to the real emitters of a real CodeGenerator (module, subroutine, if, do blocks, a
+    multi-line template) and return (module_emitter.code, get_code())."""
+    import dagrt.codegen.fortran as F
+    cg = F.CodeGenerator("scripted%d" % k, user_type_map={})
+    for _ in range(rng.randint(0, 3)):
+        cg.emit(fortran_line_ok(rng))
+    with F.FortranSubroutineEmitter(cg.emitter, "s%d" % k, ("a", "b"), cg):
+        for _ in range(rng.randint(1, 5)):
+            cg.emit(fortran_line_ok(rng))
+        with F.FortranIfEmitter(cg.emitter, "a > b", cg) as ife:
+            for _ in range(rng.randint(1, 4)):
+                cg.emit(fortran_line_ok(rng))
+            with F.FortranDoEmitter(cg.emitter, "i", "1, 10", cg):
+                for _ in range(rng.randint(1, 4)):
+                    cg.emit(fortran_line_ok(rng))
+                # a multi-line template (common indentation removed by the emitter)
+                first = "      " + (fortran_line_ok(rng) or "continue")
+                cg.emit("\n" + first + "\n" + "".join("      " + "  " * rng.randint(0, 2) + fortran_line_ok(rng) + "\n"
+                                                      for _ in range(rng.randint(1, 3))))
+            ife.emit_else()
+            cg.emit(fortran_line_ok(rng))
+    return list(cg.module_emitter.code), cg.get_code()
+
+
+def gen_emit_cases(tier, rng, generator_runs):
+    """Cases for the emission sites.  generator_runs: dict(fortran=[(code, text)], python=[(calls, text)]) from
+    the real generators.  Returns (cases, dist, failures) with failures = [(case, result, oracle)] found
+    by the oracles that look at whole returned texts."""
+    cases, dist, failures = [], {}, []
+    seen = set()
+
+    def add(c):
+        key = (c["target"], c["line"], c.get("clevel"), c.get("elevel"))
+        if key not in seen:
+            seen.add(key)
+            cases.append(c)
+
+    def fcase(line):
+        return dict(site="emit", target="fortran", line=line)
+
+    def pcase(line, cl=1, el=1):
+        return dict(site="emit", target="python", line=line, clevel=cl, elevel=el)
+
+    nf = 900 if tier == "quick" else 12000
+    for _ in range(nf):
+        add(fcase(fortran_line(rng)))
+    dist["emit_fortran_lines"] = len(cases)
+    n0 = len(cases)
+    for _ in range(900 if tier == "quick" else 12000):
+        k = rng.random()
+        line = statement(rng, "python") if k < 0.6 else random_line(rng) if k < 0.9 else \
+            "x = " + " + ".join("f('%s')" % rng.choice(BANG_TEXTS + ["# no comment"]) for _ in range(rng.randint(1, 6)))
+        add(pcase(line, rng.choice([1, 1, 1, 1, 0, 2]), rng.choice([1, 1, 2, 2, 3, 4, 6, 0])))
+    dist["emit_python_lines"] = len(cases) - n0
+
+    # whole module texts: scripted use of the real emitters, and the real generators
+    n0 = len(cases)
+    n_mod = n_lines = 0
+    mod_errors = []
+    for k in range(12 if tier == "quick" else 150):
+        try:
+            code, text = scripted_fortran_module(rng, k)
+        except ValueError:
+            continue                       # an unterminated literal in a fed line: judged per line below
+        except Exception as ex:  # noqa: BLE001
+            mod_errors.append("scripted module %d: %s: %s" % (k, type(ex).__name__, ex))
+            continue
+        generator_runs.setdefault("fortran", []).append((code, text))
+    for code, text in generator_runs.get("fortran", []):
+        n_mod += 1
+        n_lines += len(code)
+        failures += module_oracle("fortran", code, text, fcase)
+        for src in code:
+            add(fcase(src))
+    dist["emit_fortran_module_texts"] = n_mod
+    dist["emit_fortran_module_source_lines"] = n_lines
+    n_py = 0
+    for calls, text in generator_runs.get("python", []):
+        n_py += 1
+        for name, ll in calls.items():
+            for line, cl, el in ll:
+                add(pcase(line, cl, el))
+        for pr in python_text_oracle(text, {n: [x[0] for x in ll] for n, ll in calls.items()}):
+            cands = calls.get(pr.get("function"), [])
+            words = set((pr.get("physical_line") or "").split())
+            hit = None
+            for x in cands:                 # the emitted line that fails on its own, if there is one
+                cx = pcase(*x)
+                ox = oracle_emit(cx, run_emit(cx))
+                if ox is not None and ox["kind"] == pr["kind"]:
+                    hit = x
+                    break
+            if hit is None:
+                hit = next((x for x in cands if words & set(x[0].split())), cands[0] if cands else ("", 1, 1))
+            c = pcase(*hit)
+            failures.append((c, run_emit(c), dict(pr, seen_in="class text returned by the Python generator")))
+    dist["emit_python_class_texts"] = n_py
+    dist["emit_lines_from_module_texts"] = len(cases) - n0
+    if mod_errors:
+        dist["emit_module_errors"] = mod_errors
+    return cases, dist, failures
 
 
 # ------------------------------------------------------------------ lines of the real generators
@@ -601,8 +1125,17 @@ def generator_lines_python(rng, nprog):
     try:
         for k in range(nprog):
             code = _program(rng, texts if k else texts[:2], long_expr=rng.randint(1, 10))
+            cg = P.CodeGenerator(class_name="Method")
+            calls = {}
+
+            def spy_emit(line, cg=cg, calls=calls, emit=cg._emit):
+                calls.setdefault(cg._emitter.name, []).append(
+                    (line, cg._class_emitter.level, cg._emitter.level))
+                return emit(line)
+            cg._emit = spy_emit
             try:
-                P.CodeGenerator(class_name="Method")(code)
+                text = cg(code)
+                _generator_runs.setdefault("python", []).append((calls, text))
             except ValueError:
                 pass        # the generator itself fails on such a text; the line is in sink and is judged there
     finally:
@@ -613,18 +1146,24 @@ def generator_lines_python(rng, nprog):
 def generator_lines_fortran(rng, nprog):
     import dagrt.codegen.fortran as F
     from dagrt.function_registry import base_function_registry, register_ode_rhs
-    texts = ["underflow", "a b", "it's  too small"]
+    texts = ["underflow", "a b", "it's  too small", "step rejected! halving the step size and trying once more, "
+             "this message is longer than the width"]
     sink = []
     orig, spy = _spy(F, sink)
     F.wrap_line = spy
     try:
-        for k in range(max(1, nprog // 3)):
+        for k in range(max(2, nprog // 3)):
             code = _program(rng, texts, long_expr=rng.randint(1, 8), fortran=True)
             freg = register_ode_rhs(base_function_registry, "ytype", identifier="<func>f", input_names=("y",))
-            freg = freg.register_codegen("<func>f", "fortran", F.CallCode("\n${result} = -2*${y}\n"))
-            F.CodeGenerator("mod%d" % k, function_registry=freg,
-                            user_type_map={"ytype": F.ArrayType((100,), F.BuiltinType("real*8"))},
-                            timing_function="second", emit_instrumentation=bool(k % 2 == 0))(code)
+            tpl = "\n" + "".join(x + "\n" for x in F_TEMPLATE_EXTRA[:k % (len(F_TEMPLATE_EXTRA) + 1)]) \
+                + "${result} = -2*${y}\n"
+            freg = freg.register_codegen("<func>f", "fortran", F.CallCode(tpl))
+            cg = F.CodeGenerator("mod%d" % k, function_registry=freg,
+                                 user_type_map={"ytype": F.ArrayType((100,), F.BuiltinType("real*8"))},
+                                 module_preamble=F_PREAMBLES[k % len(F_PREAMBLES)], trace=bool(k % 2 == 0),
+                                 timing_function="second", emit_instrumentation=bool(k % 2 == 0))
+            text = cg(code)
+            _generator_runs.setdefault("fortran", []).append((list(cg.module_emitter.code), text))
     finally:
         F.wrap_line = orig
     return sink
@@ -646,7 +1185,7 @@ def coq_z(n):
 
 HEADER = (
     "From Coq Require Import List String Ascii ZArith Bool Uint63.\nImport ListNotations.\n"
-    "From Dagrt Require Import GenC20 Wrap.\nOpen Scope list_scope.\nOpen Scope Z_scope.\n"
+    "From Dagrt Require Import GenC20 Wrap WrapEmit.\nOpen Scope list_scope.\nOpen Scope Z_scope.\n"
     "Definition byte_of (x : int) : ascii := ascii_of_N (Z.to_N (Uint63.to_Z x)).\n"
     "Fixpoint unpack7 (n : nat) (x : int) : str :=\n"
     "  match n with O => [] | S k => byte_of (Uint63.land x 255%uint63) :: unpack7 k (Uint63.lsr x 8%uint63) end.\n"
@@ -657,9 +1196,23 @@ HEADER = (
     "    (match ind with Some i => i | None => Str (if py then default_indentation else fortran_indentation) end).\n"
     "Definition same (r : wrapres) (e : option (list str)) : bool :=\n"
     "  match r, e with WrapOk a, Some b => strs_eqb a b | WrapValueError, None => true | _, _ => false end.\n"
-    "Definition chk (c : bool * str * option str * list (option (list str) * list (nat * Z))) : bool :=\n"
+    "Definition wcase := (bool * str * option str * list (option (list str) * list (nat * Z)))%type.\n"
+    "Definition chkw (c : wcase) : bool :=\n"
     "  let '(py, line, ind, groups) := c in\n"
-    "  forallb (fun g => forallb (fun lw => same (run py line ind (fst lw) (snd lw)) (fst g)) (snd g)) groups.\n")
+    "  forallb (fun g => forallb (fun lw => same (run py line ind (fst lw) (snd lw)) (fst g)) (snd g)) groups.\n"
+    "(* emission sites: the physical lines of the returned text that come from one source line *)\n"
+    "Definition erun (py : bool) (cl el : nat) (line : str) : emitres :=\n"
+    "  if py then python_emit python_lex python_marker emitter_indent_amount (Str default_indentation)\n"
+    "                         default_width cl el line\n"
+    "  else fortran_emit_line fortran_lex fortran_marker fortran_comment fortran_indent_spaces default_width line.\n"
+    "Definition esame (r : emitres) (e : option (list str)) : bool :=\n"
+    "  match r, e with EmitOk a, Some b => strs_eqb a b | EmitValueError, None => true | _, _ => false end.\n"
+    "Definition ecase := (bool * (nat * nat) * str * option (list str))%type.\n"
+    "Definition chke (c : ecase) : bool :=\n"
+    "  let '(py, lv, line, e) := c in esame (erun py (fst lv) (snd lv) line) e.\n"
+    "Definition W (c : wcase) : wcase + ecase := inl c.\n"
+    "Definition E (c : ecase) : wcase + ecase := inr c.\n"
+    "Definition chk (c : wcase + ecase) : bool := match c with inl w => chkw w | inr e => chke e end.\n")
 
 
 def build_terms(cases, results):
@@ -667,14 +1220,29 @@ def build_terms(cases, results):
     Returns (terms, members) where members[i] = indices of the cases covered by term i."""
     groups = {}
     skipped = 0
+    eterms, emembers = [], []
     for i, (c, r) in enumerate(zip(cases, results)):
-        if r[0] == "exc" and r[1] != "ValueError":
+        if (r[0] == "exc" and r[1] != "ValueError") or r[0] == "frame":
             skipped += 1
-            continue                      # no such outcome in the model: reported by oracle A
+            continue                      # no such outcome in the model: reported by the oracles
         try:
             coq_str(c["line"])
         except UnicodeEncodeError:
             skipped += 1
+            continue
+        if c.get("site") == "emit":
+            if "\n" in c["line"]:
+                skipped += 1              # pytools' emitter splits the text at newlines: not modelled (EmitNewline)
+                continue
+            try:
+                e = "(@None (list str))" if r[0] == "exc" else "(Some [%s])" % "; ".join(coq_str(x) for x in r[1])
+            except UnicodeEncodeError:
+                skipped += 1
+                continue
+            eterms.append("(E (%s, (%d%%nat, %d%%nat), %s, %s))" % (
+                "true" if c["target"] == "python" else "false", c.get("clevel", 0), c.get("elevel", 0),
+                coq_str(c["line"]), e))
+            emembers.append([i])
             continue
         key = (c["target"], c["line"], c["indentation"])
         exp = None if r[0] == "exc" else tuple(r[1])
@@ -689,11 +1257,11 @@ def build_terms(cases, results):
                            for i in ii)
             gs.append("(%s, [%s])" % (e, lw))
             idx += ii
-        terms.append("(%s, %s, %s, [%s])" % ("true" if target == "python" else "false", coq_str(line),
-                                            "(@None str)" if ind is None else "(Some %s)" % coq_str(ind),
-                                            "; ".join(gs)))
+        terms.append("(W (%s, %s, %s, [%s]))" % ("true" if target == "python" else "false", coq_str(line),
+                                                "(@None str)" if ind is None else "(Some %s)" % coq_str(ind),
+                                                "; ".join(gs)))
         members.append(idx)
-    return terms, members, skipped
+    return terms + eterms, members + emembers, skipped
 
 
 def balance(terms, members, shard):
@@ -709,6 +1277,9 @@ def balance(terms, members, shard):
 
 
 def model_term(case):
+    if case.get("site") == "emit":
+        return "erun %s %d%%nat %d%%nat %s" % ("true" if case["target"] == "python" else "false",
+                                             case.get("clevel", 0), case.get("elevel", 0), coq_str(case["line"]))
     return "run %s %s %s %d%%nat %s" % (
         "true" if case["target"] == "python" else "false", coq_str(case["line"]),
         "(@None str)" if case["indentation"] is None else "(Some %s)" % coq_str(case["indentation"]),
@@ -718,6 +1289,8 @@ def model_term(case):
 # ------------------------------------------------------------------ shrinking
 
 def size(case):
+    if case.get("site") == "emit":
+        return (len(case["line"]), case.get("clevel", 0) + case.get("elevel", 0), 0, 0)
     return (len(case["line"]), case["level"], 0 if case["width"] is None else 1,
             0 if case["indentation"] is None else 1)
 
@@ -738,11 +1311,18 @@ def shrink(case, kind):
         if len(case["line"]) <= 60:
             for i in range(len(case["line"])):
                 cands.append(dict(case, line=case["line"][:i] + case["line"][i + 1:]))
-        if case["level"] > 0:
-            cands.append(dict(case, level=case["level"] - 1))
-            cands.append(dict(case, level=0))
-        if case["indentation"] is not None:
-            cands.append(dict(case, indentation=None))
+        if case.get("site") == "emit":
+            if case["line"].startswith(" "):
+                cands.append(dict(case, line=case["line"].lstrip(" ")))
+                cands.append(dict(case, line=case["line"][1:]))
+            if case.get("elevel", 0) > 1:
+                cands.append(dict(case, elevel=case["elevel"] - 1))
+        else:
+            if case["level"] > 0:
+                cands.append(dict(case, level=case["level"] - 1))
+                cands.append(dict(case, level=0))
+            if case["indentation"] is not None:
+                cands.append(dict(case, indentation=None))
         for c in cands:
             if size(c) < size(case) and fails(c):
                 case, changed = c, True
@@ -765,7 +1345,7 @@ def main(tier):
     failing, known_hits = {}, {}
     n_target_applicable = n_ast = 0
     for c, r in zip(cases, results):
-        if target_applies(c) is not None:
+        if c.get("site") != "emit" and target_applies(c) is not None:
             n_target_applicable += 1
             if c["target"] == "python" and py_ast(c["line"]) is not None:
                 n_ast += 1
@@ -782,14 +1362,27 @@ def main(tier):
         key = o["kind"] + ":" + c["target"]
         if key not in failing or size(c) < size(failing[key][0]):
             failing[key] = (c, r, o)
+    for c, r, o in _text_failures:          # found in whole returned texts (module / class text oracles)
+        entry = classify(c, r, o)
+        if entry is not None:
+            known_hits.setdefault(entry["class"], (c, r, o, entry))
+            known_hits.setdefault("#" + entry["class"], [0])[0] += 1
+            continue
+        key = o["kind"] + ":" + c["target"]
+        if key not in failing:              # a per-line case that fails on its own is the better replay
+            failing[key] = (c, r, o)
     for key in sorted(k for k in known_hits if not k.startswith("#")):
         c, r, o, entry = known_hits[key]
         rep.known_finding(entry.get("line") or entry.get("what_fails"))
     for key, (c, r, o) in sorted(failing.items()):
         c2 = shrink(c, o["kind"])
         r2 = run_impl(c2)
-        rep.violation({"what": "wrap_line changes more than the layout (or raises)",
-                       "case": c2, "impl_result": r2, "oracle": oracle(c2, r2),
+        o2 = oracle(c2, r2)
+        if o2 is None:                      # seen in a whole text only: keep what was seen there
+            c2, r2, o2 = c, r, o
+        rep.violation({"what": "the text returned by the code generator breaks the wrapping rules at an emission site"
+                       if c2.get("site") == "emit" else "wrap_line changes more than the layout (or raises)",
+                       "case": c2, "impl_result": r2, "oracle": o2,
                        "quote_patterns": sorted(quote_classes(c2)),
                        "tokenizer_in_tree": lexkind(c2["target"]),
                        "replay": "./check C20 --replay <this file>"})
@@ -828,20 +1421,30 @@ def main(tier):
                                                 "model_result": common.eval_term(HEADER, model_term(cases[first]))}
             detail["n_cases_in_disagreeing_groups"] = len(mism)
         detail["broken"] = ("theorem file %s" % ps.get("theorem")) if not ps["ok"] else \
-            "correspondence wrap_line ~ Dagrt.Wrap.wrap_line_base"
+            "correspondence wrap_line ~ Dagrt.Wrap.wrap_line_base, get_code / _emit ~ Dagrt.WrapEmit"
         rep.violation(detail, no_input=True)
     elif not ps["ok"] or tie_broken:
         rep.coverage["broken_obligation"] = ps if not ps["ok"] else {"disagreeing_groups_cases": len(mism)}
 
-    nontrivial = {(c["target"], c["line"], c["level"], c["width"], c["indentation"])
+    nontrivial = {(c.get("site"), c["target"], c["line"], c.get("level"), c.get("width"), c.get("indentation"),
+                   c.get("clevel"), c.get("elevel"))
                   for c, r in zip(cases, results) if r[0] != "ok" or len(r[1]) > 1}
-    pick = [0, len(cases) // 3, len(cases) // 2, len(cases) - 1]
+    emit_idx = [i for i, c in enumerate(cases) if c.get("site") == "emit"]
+    n_comment = sum(1 for i in emit_idx if cases[i]["target"] == "fortran" and is_comment_line("fortran", cases[i]["line"]))
+    n_bang = sum(1 for i in emit_idx if cases[i]["target"] == "fortran" and "!" in cases[i]["line"]
+                 and not is_comment_line("fortran", cases[i]["line"]))
+    pick = [0, len(cases) // 3, len(cases) // 2, len(cases) - 1] + emit_idx[:1] + emit_idx[-1:]
     rep.coverage.update(
         evaluations=len(cases), distinct_nontrivial=len(nontrivial),
         rule="cases = corpus + exhaustive small token sequences x levels x widths + random long lines (random "
              "level/width/indentation) + Python/Fortran statement families + lines the real generators pass to "
-             "wrap_line; non-trivial = the line is wrapped into >= 2 lines or the call raises; distinct by "
-             "(target, line, level, width, indentation)",
+             "wrap_line + emission-site cases (source lines run through the real get_code / _emit and the texts "
+             "returned by the real generators); non-trivial = the line is wrapped into >= 2 lines or the call "
+             "raises; distinct by (site, target, line, level, width, indentation, emitter levels)",
+        emission_site_cases=len(emit_idx),
+        emission_site_cases_wrapped=sum(1 for i in emit_idx if results[i][0] == "ok" and len(results[i][1]) > 1),
+        emission_site_fortran_comment_lines=n_comment,
+        emission_site_fortran_statements_with_bang=n_bang,
         traces_validated_against_impl=n_eval, model_impl_disagreements=len(mism),
         cases_not_expressible_in_model=skipped,
         target_oracle_applicable=n_target_applicable, python_ast_compared=n_ast,
@@ -859,6 +1462,12 @@ def main(tier):
         "ast.parse / Fortran free-form lexing are not modelled in Coq: they are exercised by oracle B only",
         "oracle B and C20_tokens need a non-empty whitespace indentation string (both generators use blanks); "
         "no comment or continuation character outside string literals on the input line",
+        "emission sites: the Python theorem (C20_emit_python) assumes no token consists only of characters that "
+        "str.strip() removes but the tokenizer does not split at (VT, FF, FS..US, NEL, NBSP; witness "
+        "C20_emit_python_blank_token_witness); lines with a newline inside a literal are an explicit unmodelled "
+        "outcome (EmitNewline); the target-level part of oracle E is applied to lines without comment / "
+        "continuation characters outside literals (a Fortran statement with a long trailing comment would be "
+        "wrapped inside the comment; today's generator emits only `999 continue ! exit label`)",
     ]
     return rep.finish("proof")
 
